@@ -210,8 +210,17 @@ fn gen_pairs<H: HX>(rng: &mut Rng, q: &AnyQ<H>, pf: &Profile, n: u64) -> Vec<E> 
 }
 
 fn gen_w(rng: &mut Rng, pf: &Profile) -> W {
+    // a fifth of the priority writes go to an extreme (far below / far above everything stored): damage to the order
+    // that a missing or partial re-sift leaves behind shows at once when the rewritten element has to travel far
+    let prio = if rng.chance(1, 5) {
+        Some(if rng.chance(1, 2) { i64::MIN + rng.below(16) as i64 } else { i64::MAX - rng.below(16) as i64 })
+    } else if rng.chance(2, 3) {
+        Some(gen_prio(rng, pf.prio))
+    } else {
+        None
+    };
     W {
-        prio: if rng.chance(2, 3) { Some(gen_prio(rng, pf.prio)) } else { None },
+        prio,
         payload: if rng.chance(1, 4) { Some(rng.below(100)) } else { None },
     }
 }
@@ -280,6 +289,15 @@ pub fn gen_op<H: HX>(rng: &mut Rng, q: &AnyQ<H>, pf: &Profile) -> Op {
                 }
                 if class == "retain" { Op::Retain(rows) } else { Op::RetainMut(rows) }
             }
+            "iter_mut" if len >= 5 && rng.chance(1, 4) => {
+                // a short prefix of the elements is rewritten to extremes and the guard is dropped early: the rebuild must
+                // cope with several displaced elements on one root-to-leaf path
+                let k = rng.range(1, 4);
+                let low = rng.chance(2, 3);
+                let calls: Vec<Call> = if pq || rng.chance(1, 2) { vec![Call::F; k as usize] } else { (0..k).map(|j| if j % 2 == 0 { Call::B } else { Call::F }).collect() };
+                let prog = calls.into_iter().enumerate().map(|(j, c)| (c, W { prio: Some(if low { i64::MIN + j as i64 } else { i64::MAX - j as i64 }), payload: None })).collect();
+                Op::IterMut { forget: false, late: false, prog }
+            }
             "iter_mut" => {
                 let n = rng.below(len + 3);
                 let alphabet: &[Call] = if pq { &[Call::F, Call::F, Call::F, Call::F, Call::H, Call::N(1), Call::Z, Call::C] } else { &[Call::F, Call::F, Call::F, Call::B, Call::B, Call::B, Call::L, Call::H, Call::N(1), Call::M(1), Call::N(0), Call::M(2), Call::Z, Call::C] };
@@ -288,6 +306,19 @@ pub fn gen_op<H: HX>(rng: &mut Rng, q: &AnyQ<H>, pf: &Profile) -> Op {
                 let op = Op::IterMut { forget, late: false, prog };
                 // a quarter of the (not leaked) iterations go through `(&mut q).into_iter()`
                 if !forget && rng.chance(1, 4) { Op::ViaRef(Box::new(op)) } else { op }
+            }
+            "extend" if len >= 8 && rng.chance(1, 5) => {
+                // the rebuild strategy (`better_to_rebuild(len, lower bound)`) fed with pairs whose items are (nearly) all
+                // present already: the length (hardly) changes while many priorities do
+                let lg = 63 - (len as u64).leading_zeros() as u64;
+                let mut lo = 1u64;
+                while 2 * (len + lo) >= lo * lg && lo < 400 { lo += 1; }
+                let n = lo + rng.below(6);
+                let ks = present_keys(q);
+                let fresh = rng.below(3);      // 0, 1 or 2 genuinely new items
+                let xs: Vec<E> = (0..n).map(|j| (if j < fresh { pf.universe * 2 + j } else { *rng.pick(&ks) }, rng.below(4), gen_prio(rng, pf.prio))).collect();
+                let (lo2, hi) = if rng.chance(3, 4) { (n, Some(n)) } else { (lo, None) };
+                Op::Extend { lo: lo2, hi, xs }
             }
             "extend" => {
                 let n = if rng.chance(1, 4) { rng.range(20, 70) } else { rng.below(6) };
